@@ -34,6 +34,11 @@ class VC(Scheduler):
     def run(self, env: Environment) -> ProcessGenerator:
         while True:
             item: PriorityItem = yield self.store.get()
+            # The request was granted at least one step ago; a packet that
+            # arrived in this instant since then may carry a smaller stamp.
+            # Choose again, in the step in which the transmission starts.
+            self.store.put(item)
+            item = self.store.get().value
             yield env.process(self.send_packet(item.item))
 
     def put(self, packet: Packet):
